@@ -168,6 +168,39 @@ def idcStar (ordf : List World → List World) (dordf kordf : List Var → List 
     (outcomes conditions : Event) : Except Err Expr :=
   idcStarFuel ordf dordf kordf G (idcStarFuelBound G outcomes conditions) outcomes conditions
 
+/-! ### instrumentation for the termination search (NOT a model of a Python function): the control flow of `idcStarFuel` up to the
+decision of line 4, recording `(|outcomes|, |conditions|)` of every level; the Boolean says whether the recursion ended before
+the fuel did -/
+
+def idcStarTrace (ordf : List World → List World) (dordf kordf : List Var → List Var) (G : MG Name) :
+    Nat → Event → Event → List (List Nat) × Bool
+  | 0, _, _ => ([], false)
+  | fuel + 1, outcomes, conditions =>
+    let here := [outcomes.length, conditions.length]
+    match line1 (idStar ordf dordf G conditions) with
+    | .error _ => ([here], true)
+    | .ok _ =>
+      match makeCounterfactualGraph ordf G (Event.ofList (outcomes ++ conditions)) with
+      | .ok (cf, some nev) =>
+        let (no, nc) := newOutcomesAndConditions kordf nev outcomes conditions
+        let shared := nc.keys.filter (fun k => no.has k)
+        let here := here ++ [no.length, nc.length, shared.length, (remainingAndMissing nev outcomes).2.length,
+          (remainingAndMissing nev conditions).2.length]
+        match firstExchangeable cf no.keys nc.keys with
+        | .ok (some c) =>
+          match nc.get? c with
+          | none => ([here], true)
+          | some val =>
+            match exchangeOutcomes cf no c val with
+            | .ok no' =>
+              -- shared keys that the exchange re-subscripted (they stay as conditions under their old key)
+              let split := shared.filter (fun k => !no'.has k)
+              let r := idcStarTrace ordf dordf kordf G fuel no' (nc.filter (fun p => p.1 ≠ c))
+              ((here ++ [split.length]) :: r.1, r.2)
+            | .error _ => ([here], true)
+        | _ => ([here], true)
+      | _ => ([here], true)
+
 /-! ### executable membership tests of the two fragments on which soundness is PROVED (Props/C08.lean:
 `idcstar_sound_fragment`, `idcstar_sound_fragment_exchange`); the driver evaluates them so that the harness can compare its own
 classification of the real run with them -/
